@@ -367,11 +367,33 @@ fn nuts_case(rep: &mut Report, case: u64, g: &mut Sm64) {
         if seeded {
             s = s.set_seed(seed);
         }
-        tv(&s.run(4, 0))
+        let gens = s.verif_chain_rngs();
+        (tv(&s.run(4, 0)), gens)
     });
     match r {
         Err(m) => rep.violation("NUTS panic", mon, case, json!({"cfg": cj, "panic": m})),
-        Ok(v) => {
+        Ok((v, gens)) => {
+            // the generators themselves (hook): pairwise distinct, and not one sequence at an offset
+            let st: Vec<[u64; 4]> = gens.iter().map(next4).collect();
+            for i in 0..gens.len() {
+                for j in 0..i {
+                    if st[i] == st[j] {
+                        rep.violation("NUTS two-chains-share-a-generator-state", mon, case, json!({"cfg": cj, "chains": [j, i]}));
+                        return;
+                    }
+                }
+            }
+            if gens.len() != n_chains {
+                rep.violation("NUTS hook reports a generator count other than the chain count", mon, case, json!({"cfg": cj, "generators": gens.len()}));
+                return;
+            }
+            if n_chains <= 8 && case % SCAN_EVERY.load(std::sync::atomic::Ordering::Relaxed) == 7 % SCAN_EVERY.load(std::sync::atomic::Ordering::Relaxed) {
+                rep.count("generator_sets_scanned_for_overlap_within_2^21_draws");
+                if let Some((i, j, pos)) = overlap_within(&gens, 1usize << 21) {
+                    rep.violation("NUTS two-generators-are-one-sequence-at-an-offset", mon, case, json!({"cfg": cj, "chain": i, "reaches_the_start_of_chain": j, "after_draws": pos}));
+                    return;
+                }
+            }
             for i in 0..n_chains {
                 for j in 0..i {
                     let a = &v[i * 4 * dim..(i + 1) * 4 * dim];
@@ -390,7 +412,75 @@ fn nuts_case(rep: &mut Report, case: u64, g: &mut Sm64) {
     }
 }
 
+/// "For all seeds": construction and seeding are cheap, so millions of seeds can be examined for two
+/// chains of one sampler receiving the same generator (a seed derivation through a narrow
+/// intermediate - 32 bits, say - collides for about one seed in 2^33 / n_chains^2).
+fn seed_scan_case(ctx: &Ctx, rep: &mut Report, case: u64, g: &mut Sm64) {
+    let mon = "seedscan";
+    let n_chains = 64usize;
+    let budget: u64 = if ctx.thorough { 1 << 23 } else { 1 << 21 };
+    let base = match g.below(4) {
+        0 => 0u64,
+        1 => u64::MAX - budget / 2,
+        _ => g.next_u64(),
+    };
+    let nuts = case % 2 == 0;
+    let r = guard(|| {
+        let mut hit: Option<(u64, usize, usize)> = None;
+        if nuts {
+            let target = DiagGauss::new(vec![1.0], vec![0.0]);
+            let mut s = NUTS::<f64, B64, DiagGauss>::new(target, vec![vec![0.1]; n_chains], 0.8);
+            let mut seen = std::collections::HashMap::with_capacity(n_chains);
+            'outer: for k in 0..budget {
+                let seed = base.wrapping_add(k);
+                s = s.set_seed(seed);
+                seen.clear();
+                for (i, r) in s.verif_chain_rngs().iter().enumerate() {
+                    if let Some(j) = seen.insert(next4(r), i) {
+                        hit = Some((seed, j, i));
+                        break 'outer;
+                    }
+                }
+            }
+        } else {
+            let mut s = MetropolisHastings::new(IsotropicGaussian::<f64>::new(1.0), OpenProposal { rng: SmallRng::seed_from_u64(1), scale: 1.0 }, vec![vec![0.1]; n_chains]);
+            let mut seen = std::collections::HashMap::with_capacity(2 * n_chains);
+            'outer2: for k in 0..budget / 4 {
+                let seed = base.wrapping_add(k);
+                s = s.seed(seed);
+                seen.clear();
+                for (i, c) in s.chains.iter().enumerate() {
+                    for (which, r) in [(0usize, &c.rng), (1, &c.proposal.rng)] {
+                        if let Some(j) = seen.insert(next4(r), 2 * i + which) {
+                            hit = Some((seed, j, 2 * i + which));
+                            break 'outer2;
+                        }
+                    }
+                }
+            }
+        }
+        hit
+    });
+    let scanned = if nuts { budget } else { budget / 4 };
+    rep.evals(scanned);
+    rep.count_n(if nuts { "seeds_scanned_nuts_64_chains" } else { "seeds_scanned_mh_64_chains" }, scanned);
+    match r {
+        Err(m) => rep.violation("seed scan panic", mon, case, json!({"sampler": if nuts { "NUTS" } else { "MH" }, "panic": m})),
+        Ok(Some((seed, a, b))) => rep.violation(
+            &format!("{} two-generators-of-one-sampler-start-identically (seed scan)", if nuts { "NUTS" } else { "MetropolisHastings" }),
+            mon, case, json!({"seed": seed, "n_chains": n_chains, "generators": [a, b], "note": "MH: generator 2i = acceptance of chain i, 2i+1 = proposal of chain i"})),
+        Ok(None) => {
+            rep.held();
+            rep.distinct(("seedscan", nuts, base));
+        }
+    }
+}
+
 pub fn run(ctx: &Ctx, rep: &mut Report) {
+    for c in ctx.case_ids("seedscan", 4, 32) {
+        let mut g = ctx.rng("seedscan", c);
+        seed_scan_case(ctx, rep, c, &mut g);
+    }
     SCAN_EVERY.store(if ctx.thorough { 96 } else { 4 }, std::sync::atomic::Ordering::Relaxed);
     for c in ctx.case_ids("streams", 400, 1_000_000) {
         let mut g = ctx.rng("streams", c);
